@@ -180,6 +180,8 @@ inline void nameSweep(const char* cont, const std::vector<std::string>& names, G
     probe.push_back("ZZ_absent"); probe.push_back("");
     // every proper prefix and suffix of every present name (the text before / after each position): "exactly that name" must not match a part of a longer one
     for (auto& n : names) for (size_t k = 1; k < n.size() && k <= 12; ++k) { probe.push_back(n.substr(0, k)); probe.push_back(n.substr(n.size() - k)); }
+    // every present name with ONE character replaced, at every position (a comparison that skips or folds a position answers for a neighbour)
+    for (auto& n : names) for (size_t k = 0; k < n.size() && n.size() <= 24; ++k) { std::string v = n; v[k] = (v[k] == 'x') ? 'y' : 'x'; probe.push_back(v); }
     std::sort(probe.begin(), probe.end()); probe.erase(std::unique(probe.begin(), probe.end()), probe.end());
     for (auto& nm : probe) {
         long first = -1; for (size_t i = 0; i < names.size(); ++i) if (names[i] == nm) { first = (long)i; break; }
